@@ -23,15 +23,17 @@ RULE = ('cases = controlled executions of the real driver.Driver host-thread pro
         '-simulate behaviours of CmdQueueScen, (c) seeded random schedules; distinct = distinct step traces; non-trivial '
         '= trace in which a thread blocks (sending/parked/inselect) or the engine goroutine is re-run or re-spawned')
 
-APP = ['enq', 'enqNotify', 'subscribe', 'signal', 'check', 'wait', 'unsub']
+APP = ['create', 'enq', 'enqNotify', 'subscribe', 'signal', 'check', 'wait', 'unsub']
 RA = ['select', 'pause', 'ticklater', 'continue', 'flag']
 ENG = ['acquire', 'loop', 'lockpause', 'scan', 'deq', 'deqNotify', 'clear']
 POINTS = ['app@' + p for p in APP] + ['ra@' + p for p in RA] + ['eng@' + p for p in ENG]
-CONFIGS = [(1, 2, 1), (1, 2, 2), (2, 2, 1), (2, 1, 2), (3, 1, 1), (2, 2, 2)]
+# (NA, rounds, per_round, threads using the blocking API in one shared context, cfg tag)
+CONFIGS = [(1, 2, 1, [], '1_2_1'), (2, 2, 1, [1, 2], 't2'), (2, 2, 1, [], '2_2_1'), (2, 2, 1, [2], 'mx'), (1, 2, 2, [], '1_2_2'),
+           (2, 1, 2, [], '2_1_2'), (3, 1, 1, [], '3_1_1'), (3, 1, 1, [2, 3], 't3'), (2, 2, 2, [], '2_2_2')]
 
 
 def tspec(cfg):
-    return {'dirs': ['cmdqueue'], 'module': 'CmdQueueTrace.tla', 'cfg': 'CmdQueueTrace_%d_%d_%d.cfg' % cfg,
+    return {'dirs': ['cmdqueue'], 'module': 'CmdQueueTrace.tla', 'cfg': 'CmdQueueTrace_%s.cfg' % cfg[4],
             'signature': signature}
 
 
@@ -48,12 +50,12 @@ def signature(recs, at, v):
 
 
 def hold_scenarios(cfg, rng, limit):
-    na, r, p = cfg
+    na, r, p, temp, _ = cfg
     sets = [[]] + [[x] for x in POINTS] + [list(c) for c in itertools.combinations(POINTS, 2)]
     if na > 1:
         sets += [['app1@' + x] for x in APP] + [['app2@' + x, 'eng@' + y] for x in ('check', 'wait', 'signal') for y in ENG]
-    sc = [{'na': na, 'rounds': r, 'per_round': p, 'mode': 'hold', 'hold': h, 'reverse': rev}
-          for h in sets for rev in (False, True)]
+    sc = [{'na': na, 'rounds': r, 'per_round': p, 'mode': 'hold', 'hold': h, 'reverse': rev, 'temp': temp}
+          for h in sets for rev in (False, True) if temp or not any('create' in x for x in h)]
     if limit and len(sc) > limit:
         # always keep the singletons (they include the two historical hang schedules), sample the pairs
         single = [s for s in sc if len(s['hold']) <= 1]
@@ -142,14 +144,14 @@ def run(ctx, selftest=False):
     drv = ctx.go_build('c12')
 
     # 1. design-level model checking
-    for cfg, workers, to in [('MC_fixed_NA1.cfg', 4, 300), ('MC_fixed_NA2.cfg', 8, 900)]:
+    for cfg, workers, to in [('MC_fixed_NA1.cfg', 4, 300), ('MC_fixed_NA2.cfg', 8, 900), ('MC_fixed_mixed.cfg', 8, 900)]:
         r = ctx.tlc_expect_ok(['cmdqueue'], 'CmdQueue.tla', cfg, workers=workers, timeout=to,
                               coverage=(cfg == 'MC_fixed_NA1.cfg'))
         ctx.log('%s: %d distinct states (safety + liveness)' % (cfg, r.distinct))
         if cfg == 'MC_fixed_NA1.cfg':
             ctx.cov['coverage_zero_actions'] = r.coverage_zero()
     if thorough:
-        for cfg in ('MC_fixed_NA2big.cfg', 'MC_fixed_NA3.cfg'):
+        for cfg in ('MC_fixed_temp2.cfg', 'MC_fixed_NA2big.cfg', 'MC_fixed_NA3.cfg'):
             r = ctx.tlc_expect_ok(['cmdqueue'], 'CmdQueue.tla', cfg, workers=vlib.NCPU, timeout=3000)
             ctx.log('%s: %d distinct states' % (cfg, r.distinct))
         ctx.cov['exhaustive'] = True
@@ -163,32 +165,33 @@ def run(ctx, selftest=False):
 
     # 2. scenarios per configuration
     groups = []
-    cfgs = CONFIGS if thorough else CONFIGS[:4]
+    cfgs = CONFIGS if thorough else CONFIGS[:5]
     for ci, cfg in enumerate(cfgs):
-        na, rnd, per = cfg
+        na, rnd, per, temp, tag = cfg
         scen = []
         if ci == 0:
             scen += hold_scenarios(cfg, rng, None if thorough else 140)
-        elif ci == 2 or thorough:
-            scen += hold_scenarios(cfg, rng, 400 if thorough else 60)
-        behs, _ = ctx.simulate(['cmdqueue'], 'CmdQueueScen.tla', 'CmdQueueScen_%d_%d_%d.cfg' % cfg,
+        elif ci in (1, 2, 3) or thorough:
+            scen += hold_scenarios(cfg, rng, 400 if thorough else 70)
+        behs, _ = ctx.simulate(['cmdqueue'], 'CmdQueueScen.tla', 'CmdQueueScen_%s.cfg' % tag,
                                num=(150 if thorough else 25), depth=40 * na * rnd * (per + 1), seed=ctx.seed + ci)
         for b in behs:
             sched = [st['act'] for st in b[1:] if st.get('act') not in (None, 'init')]
-            scen.append({'na': na, 'rounds': rnd, 'per_round': per, 'mode': 'schedule', 'schedule': sched})
+            scen.append({'na': na, 'rounds': rnd, 'per_round': per, 'mode': 'schedule', 'schedule': sched, 'temp': temp})
         for k in range(200 if thorough else 25):
-            scen.append({'na': na, 'rounds': rnd, 'per_round': per, 'mode': 'random', 'seed': ctx.seed * 1000 + ci * 100 + k})
+            scen.append({'na': na, 'rounds': rnd, 'per_round': per, 'mode': 'random', 'seed': ctx.seed * 1000 + ci * 100 + k,
+                         'temp': temp})
         groups.append((cfg, scen))
     ctx.sample({'hold_scenario': groups[0][1][1], 'tlc_schedule_scenario': next(s for s in groups[0][1] if s['mode'] == 'schedule')})
 
     with ThreadPoolExecutor(max_workers=4) as ex:
-        futs = [ex.submit(run_group, ctx, drv, cfg, scen, '%d_%d_%d' % cfg) for cfg, scen in groups]
+        futs = [ex.submit(run_group, ctx, drv, cfg, scen, cfg[4]) for cfg, scen in groups]
         results = [f.result() for f in futs]
 
     total_events, all_parts, hangs = 0, [], 0
     first_trace = None
     for (cfg, scen), (t, stats) in zip(groups, results):
-        ctx.log('config NA=%d rounds=%d per_round=%d: %s' % (cfg + (stats,)))
+        ctx.log('config NA=%d rounds=%d per_round=%d temp=%s: %s' % (cfg[:4] + (stats,)))
         total_events += stats['events']
         hangs += stats['hangs']
         first_trace = first_trace or t
@@ -269,13 +272,14 @@ def replay(ctx, path):
     rp = json.load(open(path))['replay']
     trace = rp['trace']
     cfg = tuple(rp['driver']['cfg'])
+    cfg = cfg[:3] + (list(cfg[3]), cfg[4])
     # re-execute: rebuild the schedule from the recorded steps and run it on the current tree
     drv = ctx.go_build('c12')
     sched = []
     for r in trace:
         if r['e'] == 'Step':
             sched.append('app%d' % r['a'] if r['t'] == 'app' else r['t'])
-    scen = [{'na': cfg[0], 'rounds': cfg[1], 'per_round': cfg[2], 'mode': 'schedule', 'schedule': sched}]
+    scen = [{'na': cfg[0], 'rounds': cfg[1], 'per_round': cfg[2], 'mode': 'schedule', 'schedule': sched, 'temp': cfg[3]}]
     t, stats = run_group(ctx, drv, cfg, scen, 'replay')
     before = len(ctx.violations)
     common.validate_and_triage(ctx, tspec(cfg), t, {'cmd': 'c12', 'cfg': list(cfg)})
